@@ -86,7 +86,11 @@ def report(prop, tier, seed, results, registry, known, expected, head, dirty, wa
                    "solver_witness": r.get("witness"), "replay": rep, "solver_output": solver_output, "note": r.get("note", ""),
                    "command": "./check --replay %s" % rel}
         json.dump(payload, open(os.path.join(VERIF_DIR, rel), "w"), indent=1, default=str)
-        print("REFUTED %s  [%s]" % (r["name"], ", ".join(bad_goals)))
+        uniq = []
+        for b in bad_goals:
+            if b not in uniq:
+                uniq.append(b)
+        print("REFUTED %s  [%s]" % (r["name"], ", ".join("%s (x%d paths)" % (b, bad_goals.count(b)) if bad_goals.count(b) > 1 else b for b in uniq)))
         if reproduced:
             w = {k2: v for k2, v in (r.get("witness") or {}).items() if not k2.startswith("_")}
             print("  witness %s" % json.dumps(w)[:600])
